@@ -6,7 +6,7 @@ id=$1; shift
 prop=${id:0:3}
 checks=${@:-$prop}
 wt=/tmp/seedwork/wt_$id
-dst=/verif/seeded/$(echo $id | sed -e "s/r2/_2/" -e "s/r3/_3/")
+dst=/verif/seeded/$(echo $id | sed -e "s/r2/_2/" -e "s/r3/_3/" -e "s/r4/_4/")
 [ -f $wt/_seed/patch.diff ] || { echo "no patch in $wt/_seed"; exit 2; }
 scratch=$(mktemp -d /tmp/seedtry_XXXX)
 rsync -a --exclude .git --exclude __pycache__ --exclude _seed --exclude '*.ipynb' /repo/ $scratch/repo/
@@ -19,7 +19,7 @@ echo "demo without change: exit $without (want 0); with change: exit $with (want
 mkdir -p $dst; cp $wt/_seed/patch.diff $wt/_seed/demo.py $dst/
 results=""
 for c in $checks; do
-  out=$(cd /verif && FLODYM_SRC=$scratch/repo VERIF_OUT=$scratch/out ./check $c --tier quick 2>&1); rc=$?
+  out=$(cd ${VERIF_CHECK_DIR:-/verif} && FLODYM_SRC=$scratch/repo VERIF_OUT=$scratch/out ./check $c --tier quick 2>&1); rc=$?
   b=$(echo "$out" | grep -m2 "bucket=" | cut -c1-220 | tr '\n' ' ')
   echo "check $c: exit $rc  $b"
   results="$results{\"check\":\"$c\",\"exit\":$rc},"
